@@ -1093,6 +1093,12 @@ def setattr_(eng, st, base, name, v):
                 r = h(eng, st, base, o, name, v)
                 if r is not None:
                     return r
+            spec = eng.class_specs.get(o.cls) if o.kind == "inst" else None
+            if spec is not None and name not in spec.fields and name not in o.f:
+                # the code stores an attribute the sidecar's description of this class does not know (renamed or new field): the
+                # contracts written against the old field names say nothing about this code - undecided, never a verdict
+                raise Unsupported(f"attribute {name} of {getattr(o.cls, '__name__', o.cls)} is not in the class description used by the contracts "
+                                  f"(fields: {sorted(spec.fields)[:12]}...): the contracts are stale for this class")
             o.f[name] = v
             return ok(st, None)
     if isinstance(base, VObj):
